@@ -46,15 +46,102 @@ pub fn kmer(seed: u64, runs: usize, maxlen: usize) {
     println!("{}", json!({"ev":"eof"}));
 }
 
-/// long sequence: positions beyond 2^16. dense: clean bases with an ambiguous byte every few thousand; otherwise 1500 clean
-/// bases, then ambiguous bytes with short clean islands up to position 66 000, then clean bases again to the end
+/// long sequence: positions beyond 2^16. dense: clean bases with an ambiguous byte every few thousand. Otherwise: 1500 clean
+/// bases; ambiguous bytes (with clean islands too short for a window) up to position 300 000 - hundreds of thousands of
+/// consecutive calls of the loop body without an emission; a tandem repeat of period 7 for 4500 bases (thousands of
+/// consecutive windows with one minimiser); 1500 random clean bases
 fn long_seq(rng: &mut Rng, n: usize, dense: bool) -> Vec<u8> {
+    if dense {
+        return (0..n).map(|x| if x % 4099 == 4098 || x == 65_537 { *rng.pick(b"N-*.") } else { *rng.pick(b"ACGTacgtUu") }).collect();
+    }
+    let unit: Vec<u8> = (0..7).map(|_| *rng.pick(b"ACGT")).collect();
+    let gap_end = n.saturating_sub(6000).max(1500);
     (0..n)
         .map(|x| {
-            let amb = if dense { x % 4099 == 4098 || x == 65_537 } else { x >= 1500 && x < 66_000 && x % 997 > 5 };
-            if amb { *rng.pick(b"N-*.") } else { *rng.pick(b"ACGTacgtUu") }
+            if x < 1500 {
+                *rng.pick(b"ACGTacgtUu")
+            } else if x < gap_end {
+                if x % 997 > 5 { *rng.pick(b"N-*.") } else { *rng.pick(b"ACGT") }
+            } else if x < gap_end + 4500 {
+                unit[x % 7]
+            } else {
+                *rng.pick(b"ACGTacgtUu")
+            }
         })
         .collect()
+}
+
+/// clean stretches separated by gaps of ONE repeated ambiguous byte, every gap length 0..=130 once
+fn gap_seq(rng: &mut Rng, clean: usize) -> Vec<u8> {
+    let b = *rng.pick(b"N-*.nX");
+    let mut s = Vec::new();
+    for g in 0..=130usize {
+        for _ in 0..(clean + (g % 3)) {
+            s.push(*rng.pick(b"ACGTacgu"));
+        }
+        for _ in 0..g {
+            s.push(b);
+        }
+    }
+    s
+}
+
+/// trace gaps <seed> <which>: which = kmer | minimiser | kmermin: one run over gap_seq
+pub fn gaps(seed: u64, which: &str) {
+    let mut rng = Rng::new(seed);
+    match which {
+        "kmer" => {
+            let k = *rng.pick(&[2usize, 5, 17, 31]);
+            let s = gap_seq(&mut rng, k + 1);
+            kmer_run(&s, k);
+        }
+        _ => {
+            let (w, m) = *rng.pick(&[(8usize, 5usize), (12, 7), (5, 5), (31, 9)]);
+            let s = gap_seq(&mut rng, w + 1);
+            if which == "kmermin" {
+                kmermin_run(&s, w, m);
+            } else {
+                minimiser_run(&s, w, m);
+            }
+        }
+    }
+    println!("{}", json!({"ev":"eof"}));
+}
+
+/// trace iterapi <seed> <runs>: the provided methods of Iterator on partially consumed iterators: count(), last(), nth(n) after
+/// `skip` calls of next(); judged against the declarative item lists
+pub fn iterapi(seed: u64, runs: usize) {
+    let mut rng = Rng::new(seed);
+    for i in 0..runs {
+        let n = rng.range(0, 90) as usize;
+        let bytes = gen_seq(&mut rng, n, false);
+        let skip = rng.below(6) as usize;
+        let nth = rng.below(5) as usize;
+        match i % 3 {
+            0 => {
+                let k = *rng.pick(&[1usize, 2, 3, 5, 9, 16]);
+                let mk = || { let mut g = KmerGenerator::new(&bytes, k); for _ in 0..skip { g.next(); } g };
+                let item = |x: Option<(u64, u64)>| x.map(|(f, r)| json!([digits32(f), digits32(r)])).unwrap_or(json!([]));
+                println!("{}", json!({"ev":"iterapi","kind":"kmer","k":k,"w":0,"m":0,"bytes":bytes,"skip":skip,"nth":nth,
+                    "count":mk().count(),"last":item(mk().last()),"nthitem":item(mk().nth(nth))}));
+            }
+            1 => {
+                let (w, m) = *rng.pick(&[(4usize, 2usize), (6, 3), (9, 9), (12, 5)]);
+                let mk = || { let mut g = MinimiserGenerator::new(&bytes, w, m); for _ in 0..skip { g.next(); } g };
+                let item = |x: Option<(u64, usize, usize)>| x.map(|(v, s, e)| json!([digits32(v), s, e])).unwrap_or(json!([]));
+                println!("{}", json!({"ev":"iterapi","kind":"min","k":0,"w":w,"m":m,"bytes":bytes,"skip":skip,"nth":nth,
+                    "count":mk().count(),"last":item(mk().last()),"nthitem":item(mk().nth(nth))}));
+            }
+            _ => {
+                let (w, m) = *rng.pick(&[(4usize, 2usize), (6, 3), (9, 9), (12, 5)]);
+                let mk = || { let mut g = KmerMinimiserGenerator::new(&bytes, w, m); for _ in 0..skip { g.next(); } g };
+                let item = |x: Option<(u64, usize, usize, Vec<u64>)>| x.map(|(v, s, e, _)| json!([digits32(v), s, e])).unwrap_or(json!([]));
+                println!("{}", json!({"ev":"iterapi","kind":"min","k":0,"w":w,"m":m,"bytes":bytes,"skip":skip,"nth":nth,
+                    "count":mk().count(),"last":item(mk().last()),"nthitem":item(mk().nth(nth))}));
+            }
+        }
+    }
+    println!("{}", json!({"ev":"eof"}));
 }
 
 /// trace kmerlong <seed> <len> <dense>: one run of the k-mer iterator over a sequence of <len> bases (positions beyond 2^16)
